@@ -129,4 +129,32 @@ theorem parser_switch_as_in_source :
     PgBifrost.Gen.ParserSrc.finish = finish :=
   ⟨PgBifrost.Proofs.ParserSrc.stepC_eq, PgBifrost.Proofs.ParserSrc.finish_eq⟩
 
+/-- the statements before the loop as the model's `parseGo` reads them (line by line, as text): the length test,
+the five-byte prefix switch with `BEGIN` falling through to `COMMI`, `strings.Fields` with exactly two fields
+giving operation and transaction, `table` going on to the loop at `TokenStart = 6` in state `relation`, anything
+else an error -/
+def expectedPrologue : List String := [
+  "state := pr.State",
+  "message := *state.Msg",
+  "if state.Current == parseStateInitial {",
+  "if len(message) < 5 { return errors.Errorf(\"message too short: %s\", message) }",
+  "switch message[0:5] {",
+  "case \"BEGIN\":",
+  "fallthrough",
+  "case \"COMMI\":",
+  "fields := strings.Fields(message)",
+  "if len(fields) != 2 { return errors.Errorf(\"unknown transaction message: %s\", message) }",
+  "pr.Operation = fields[0]",
+  "pr.Transaction = fields[1]",
+  "return nil",
+  "case \"table\":",
+  "default:",
+  "return errors.Errorf(\"unknown logical message received: %s\", message)",
+  "}",
+  "state.TokenStart = 6",
+  "state.Current = parseStateRelation",
+  "}"]
+
+theorem parser_prologue_as_in_source : PgBifrost.Gen.ParserSrc.prologue = expectedPrologue := rfl
+
 end PgBifrost.Props.C09
